@@ -27,7 +27,9 @@ ANCHOR_FILES = [
 RULE = (
     "seeded random scenes (object type x 1-3 slices x 1-3 modes) x optimizer (sgd, sgd+momentum, adam, adamw; optionally a dataset optimizer) x scheduler "
     "(none/exp/linear/cyclic/plateau) x constraint dictionaries x split point k in 0..7 x continuation m in 1..4 x continuation style (plain, two calls, new "
-    "constraints, added probe optimizer, new scheduler); every 'twins' case derives the twins zip, dir, clone, forced clone fallback and raw-data-free reload from the same "
+    "constraints, added probe optimizer, added dataset optimizer that did not exist at the split, new scheduler) x order (original continued first / twins first) x "
+    "after-error history (save attempts that raise - existing target with mode 'w', raw and raw-free, zip and dir, directory store with a file name - caught at the split "
+    "and/or 1..k iterations before it); every 'twins' case derives the twins zip, dir, clone, forced clone fallback and raw-data-free reload from the same "
     "split state; 'history' cases checkpoint one run periodically: the same zip path and the same directory path (reused by all cases of a worker) are overwritten with "
     "mode='o' at three successive split points, each followed by from_file (and clone() of the reloaded object), judged against the state at that split and continued "
     "against the uninterrupted reference. non-trivial = k >= 1, m >= 2 and (stateful optimizer or a scheduler that changed the learning rate); distinct = (optimizer, scheduler, k, "
@@ -46,12 +48,12 @@ ASSUMPTIONS = [
 ]
 BUDGET = {"quick": {"soft_s": 100, "workers": 14}, "thorough": {"soft_s": 540, "workers": 14}}
 MIN_EVALUATIONS = {"quick": 30, "thorough": 300}
-REQUIRED_COUNTERS = ["eval:obj_differs", "eval:probe_differs", "eval:iter_losses_differ", "eval:iter_lrs_differ", "eval:constraints_differ", "eval:num_iters_differs"]
+REQUIRED_COUNTERS = ["eval:twin_shares_state", "eval:obj_differs", "eval:probe_differs", "eval:iter_losses_differ", "eval:iter_lrs_differ", "eval:constraints_differ", "eval:num_iters_differs"]
 EXHAUSTIVE = {"quick": False, "thorough": False}
 
 OPTIMIZERS = ["sgd", "sgd_momentum", "adam", "adamw"]
 SCHEDULERS = ["none", "exp", "linear", "cyclic", "plateau"]
-STYLES = ["plain", "plain", "two_calls", "new_constraints", "add_probe_optimizer", "new_scheduler"]
+STYLES = ["plain", "plain", "two_calls", "new_constraints", "add_probe_optimizer", "new_scheduler", "add_dataset_optimizer", "add_dataset_optimizer"]
 TOL_STATE = 1e-6
 TOL_SYNC = 1e-5
 TOL_FREE = 1e-4
@@ -64,7 +66,8 @@ def plan(tier, seed):
     specs = []
     for i in range(n):
         specs.append({"kind": "twins", "opt": OPTIMIZERS[i % 4], "sched": SCHEDULERS[(i // 4) % 5], "k": int(rng.choice([0, 1, 1, 2, 2, 3, 3, 4, 5, 6, 7])), "style": STYLES[int(rng.integers(len(STYLES)))],
-                      "sync": bool(rng.random() < 0.8), "i": i})
+                      "sync": bool(rng.random() < 0.8), "order": ["twins_first", "original_first"][int(rng.integers(2))],
+                      "errors": ["none", "none", "at_split", "before_split", "before_split", "both"][int(rng.integers(6))], "i": i})
     hist = [{"kind": "history", "opt": OPTIMIZERS[(i + 1) % 4], "sched": SCHEDULERS[(i // 2) % 5], "k": int(rng.integers(0, 4)), "style": ["plain", "plain", "new_constraints", "new_scheduler"][int(rng.integers(4))], "i": i}
             for i in range(nh)]
     # interleave (one history case after every third twin case) so that every worker sees both kinds and the evidence samples show both
@@ -298,7 +301,7 @@ def _observe_unjudged(ctx, name, differs):
         ctx.count("observed_unjudged:%s:differs" % name)
 
 
-def _compare(ctx, ref, got, tol, f, judge_dataset_constraints=True, first_only=None):
+def _compare(ctx, ref, got, tol, f, judge_dataset_constraints=True, first_only=None, judge_dataset_params=False):
     """ref/got: snapshots of the public state; one evaluation per observable named by the property.
 
     first_only=k (free-running generators): only the first continued iteration (history entries 0..k) is judged - it is a function of the
@@ -333,8 +336,11 @@ def _compare(ctx, ref, got, tol, f, judge_dataset_constraints=True, first_only=N
         return r
     ctx.close(ro, tol, "obj_differs", lambda: "%s %s: max|obj - expected| / max|expected|" % (f["twin"], ph), track="%s:%s" % (ph, f["sync"]), **f)
     ctx.close(rp, tol, "probe_differs", lambda: "%s %s: max|probe - expected| / max|expected|" % (f["twin"], ph), track="%s:%s" % (ph, f["sync"]), **f)
-    # carried by a checkpoint but not named by the property: observed only
-    _observe_unjudged(ctx, "learned_dataset_parameters:%s" % ph, rd > tol)
+    if judge_dataset_params:
+        # with a dataset optimizer the learned scan positions / descan shifts are part of what the continued loss history is a function of
+        ctx.close(rd, tol, "dataset_parameters_differ", lambda: "%s %s: learned descan shifts / scan positions differ (max-abs relative)" % (f["twin"], ph), track="%s:%s" % (ph, f["sync"]), **f)
+    else:
+        _observe_unjudged(ctx, "learned_dataset_parameters:%s" % ph, rd > tol)
     snaps_ok = len(ref["snapshots"]) == len(got["snapshots"]) and all(x["iteration"] == y["iteration"] and _relmax(x["obj"], y["obj"]) <= tol and _relmax(x["probe"], y["probe"]) <= tol for x, y in zip(ref["snapshots"], got["snapshots"]))
     if ref["snapshots"] or got["snapshots"]:
         _observe_unjudged(ctx, "stored_snapshots:%s" % ph, not snaps_ok)
@@ -342,6 +348,62 @@ def _compare(ctx, ref, got, tol, f, judge_dataset_constraints=True, first_only=N
 
 
 # ------------------------------------------------------------------------------------------------
+
+
+def _state_items(pt):
+    """(what, identity) of everything mutable that a reconstruction owns: the three model objects, the storage of their parameters, optimizers, schedulers"""
+    items = []
+    for what, m in (("obj_model", pt.obj_model), ("probe_model", pt.probe_model), ("dset", pt.dset)):
+        items.append(("model:" + what, id(m)))
+        for p_ in m.parameters():
+            if p_.numel():
+                items.append(("parameter:" + what, ("storage", p_.untyped_storage().data_ptr())))
+        for attr in ("optimizer", "scheduler"):
+            o = getattr(m, attr, None)
+            if o is not None:
+                items.append(("%s:%s" % (attr, what), id(o)))
+    return items
+
+
+def _judge_no_sharing(ctx, objs, f, when):
+    """objs: name -> Ptychography (all alive).  No model object / parameter storage / optimizer / scheduler of one may belong to another as well."""
+    owner = {}
+    for name, pt in objs.items():
+        shared = []
+        for what, key in _state_items(pt):
+            o = owner.setdefault((what.split(":")[0] == "parameter", key), (name, what))
+            if o[0] != name:
+                shared.append((what, o[0]))
+        ctx.check(not shared, "twin_shares_state", lambda: "%s (%s): %s" % (name, when, ", ".join("%s is also %s's" % (w, o_) for w, o_ in shared[:6])),
+                  what=sorted(set(w for w, _ in shared))[0] if shared else "", shared_with=shared[0][1] if shared else "", **dict(f, twin=name, phase=when))
+
+
+def _failed_saves(ctx, pt, tmp, idx, rng, quiet):
+    """save attempts that raise on the unchanged tree as well (existing target with the default mode="w", raw and raw-free, zip and dir; a directory store
+    with a file-like name) - caught by the caller, as a script that checkpoints periodically would.  They must leave no trace in later checkpoints."""
+    import os
+
+    ez = os.path.join(tmp, "c05_%d_exists.zip" % idx)
+    ed = os.path.join(tmp, "c05_%d_exists_dir" % idx)
+    if not os.path.exists(ez):
+        with open(ez, "wb") as fh:
+            fh.write(b"occupied")
+    os.makedirs(ed, exist_ok=True)
+    attempts = [(ez, "zip", False), (ed, "dir", False), (ez, "zip", True), (ed, "dir", True), (os.path.join(tmp, "c05_%d_bad.zip" % idx), "dir", bool(rng.random() < 0.5))]
+    picks = [attempts[i] for i in sorted(set(int(x) for x in rng.integers(0, len(attempts), size=int(rng.integers(1, 4)))))]
+    if not any(not raw for _p, _s, raw in picks):
+        picks.append(attempts[int(rng.integers(0, 2))])  # at least one raw-data-free attempt
+    for path, store, raw in picks:
+        try:
+            with quiet():
+                pt.save(path, store=store, save_raw_data=raw)
+        except (FileExistsError, ValueError):
+            ctx.count("failed_saves_caught")
+        else:
+            from vf.core import HarnessError
+
+            raise HarnessError("a save that was expected to raise succeeded: %s store=%s" % (path, store))
+    return len(picks)
 
 
 def _continue(pt, calls, quiet):
@@ -358,27 +420,32 @@ def _run_twins(spec, idx, ctx):
                            num_slices=int(rng.choice([1, 1, 2, 3])), num_modes=int(rng.choice([1, 2, 3])), pad_req=(int(rng.integers(0, 6)), int(rng.integers(0, 6))))
     I = scenes.simulate_scene(sc)
     J = int(np.prod(sc.gpts))
-    dataset = bool(rng.random() < 0.3)
-    learn_pos = dataset and bool(rng.random() < 0.4)
+    k, style, sync = int(spec["k"]), spec["style"], bool(spec["sync"])
+    add_ds = style == "add_dataset_optimizer"  # the dataset parameters are learnable, but their optimizer only appears in the continuation
+    dataset = (not add_ds) and bool(rng.random() < 0.35)  # a dataset optimizer exists at the split
+    learn_descan = dataset or (add_ds and bool(rng.random() < 0.8))
+    learn_pos = (dataset and bool(rng.random() < 0.6)) or (add_ds and (not learn_descan or bool(rng.random() < 0.5)))
     seed = int(rng.integers(1 << 30))
     init = "uniform" if rng.random() < 0.7 else None
     loss_type = ["l2_amplitude", "l2_amplitude", "l1_amplitude", "l2_intensity", "poisson"][int(rng.integers(5))]
 
     def build():
-        return scenes.build_library(sc, I, seed=seed, obj_init=init, install_truth=False, learn_descan=dataset, learn_scan_positions=learn_pos)
+        return scenes.build_library(sc, I, seed=seed, obj_init=init, install_truth=False, learn_descan=learn_descan, learn_scan_positions=learn_pos)
 
-    k, style, sync = int(spec["k"]), spec["style"], bool(spec["sync"])
     m = int(rng.integers(2, 5)) if spec["i"] % 7 else 1
     op = _opt_params(rng, spec["opt"], dataset)
-    sp = _sched_params(rng, spec["sched"], list(op), k)
+    sp = _sched_params(rng, spec["sched"], list(op), 0)  # (0: schedulers never derive their rate from the length of the installing call, which may be 0)
     cons = _constraints(rng, sc, dataset)
     snaps = bool(rng.random() < 0.4)
     if snaps and rng.random() < 0.5:
         # no active probe constraint: the public probe is then the live parameter itself (hostile for stored snapshots)
         cons.setdefault("probe", {}).update(orthogonalize_probe=False, center_probe=False)
-    first = dict(num_iters=k, reset=True, optimizer_params=op, scheduler_params=sp, constraints=cons, batch_size=J, loss_type=loss_type)
+    errors = spec.get("errors", "none")  # none | at_split | before_split | both
+    k_b = int(rng.integers(1, k + 1)) if (errors in ("before_split", "both") and k >= 1) else 0
+    first = dict(num_iters=k - k_b, reset=True, optimizer_params=op, scheduler_params=sp, constraints=cons, batch_size=J, loss_type=loss_type)
     if snaps:
         first["store_snapshots_every"] = int(rng.integers(1, 3))
+    second = dict(num_iters=k_b, batch_size=J, loss_type=loss_type) if k_b else None
     cont = [dict(num_iters=m, batch_size=J, loss_type=loss_type)]
     if style == "two_calls":
         cont.append(dict(num_iters=int(rng.integers(1, 3)), batch_size=J, loss_type=loss_type))
@@ -394,24 +461,45 @@ def _run_twins(spec, idx, ctx):
         cont[0]["optimizer_params"] = {"probe": op["probe"]}
     elif style == "new_scheduler":
         cont[0]["scheduler_params"] = {"object": _sched_one(rng, SCHEDULERS[1 + int(rng.integers(4))])}
+    elif add_ds:
+        cont[0]["optimizer_params"] = {"dataset": {"type": ["adam", "sgd"][int(rng.integers(2))], "lr": float(10 ** rng.uniform(-2.5, -1.5))}}
+        if rng.random() < 0.4:
+            cont.append(dict(num_iters=int(rng.integers(1, 3)), batch_size=J, loss_type=loss_type))
+    ds_active = dataset or add_ds  # learned scan positions / descan shifts take part in the continuation
+    order = spec.get("order", "twins_first")
     f0 = {"optimizer": spec["opt"], "scheduler": spec["sched"], "style": style, "sync": "sync" if sync else "free", "dataset_optimizer": dataset}
     sync_seed = int(rng.integers(1 << 30))
+    pre_seed = int(rng.integers(1 << 30))
 
     def cont_run(pt):
         if sync:
             pt.rng = sync_seed
         _continue(pt, cont, quiet)
 
+    def to_split(pt, interrupted):
+        """the calls up to the split; the interrupted original additionally suffers save attempts that raise (and are caught)"""
+        _continue(pt, [first], quiet)
+        if second is not None:
+            if interrupted:
+                _failed_saves(ctx, pt, ctx.tmp, idx, ctx.rng(idx, 7), quiet)
+            pt.rng = pre_seed  # same public call on reference and original
+            _continue(pt, [second], quiet)
+        if interrupted and errors in ("at_split", "both"):
+            _failed_saves(ctx, pt, ctx.tmp, idx, ctx.rng(idx, 8), quiet)
+
     # ---- reference: never saved, never copied -------------------------------------------------------
     R = build()
-    _continue(R, [first], quiet)
+    to_split(R, False)
+    ref_split = _snap(R)
     cont_run(R)
     ref_final = _snap(R)
     del R
     # ---- original, interrupted at k ------------------------------------------------------------------
     A = build()
-    _continue(A, [first], quiet)
+    to_split(A, True)
     split = _snap(A)
+    # up to the split the original made the same calls as the reference (plus failed saves): same state, bitwise in practice
+    _compare(ctx, ref_split, split, TOL_STATE, dict(f0, twin="original_before_checkpoint", phase="state"), judge_dataset_params=ds_active)
     twins = {}
     tmp = ctx.tmp
     import os
@@ -459,27 +547,43 @@ def _run_twins(spec, idx, ctx):
         twins["noraw_" + nr_store] = Pty.from_file(pn, dset=D.dset)
     # ---- saving / cloning must not have perturbed the original ---------------------------------------
     fA = dict(f0, twin="original_after_save", phase="state")
-    _compare(ctx, split, _snap(A), TOL_STATE, fA)
+    _compare(ctx, split, _snap(A), TOL_STATE, fA, judge_dataset_params=ds_active)
     # ---- state equality right after reload -------------------------------------------------------------
     for name, B in twins.items():
         noraw = name.startswith("noraw")
-        _compare(ctx, split, _snap(B), TOL_STATE, dict(f0, twin=name, phase="state"), judge_dataset_constraints=not noraw)
-    # ---- continuation: twins first, then the original (a twin that shares state with A shows up in A) ---
+        _compare(ctx, split, _snap(B), TOL_STATE, dict(f0, twin=name, phase="state"), judge_dataset_constraints=not noraw, judge_dataset_params=ds_active and not noraw)
+    everyone = dict(twins, original=A)
+    _judge_no_sharing(ctx, everyone, f0, "after_checkpoint")
+    # ---- continuation, in both orders (original first / twins first): whoever shares state with somebody else starts from the other's progress ---
     tol = TOL_SYNC
     ckw = {} if sync else {"first_only": k}
     worst = 0.0
+
+    def frozen(snap0, pt, who, during):
+        s1 = _snap(pt)
+        same = s1["num_iters"] == snap0["num_iters"] and all(_relmax(snap0[q], s1[q]) == 0.0 for q in ("obj", "probe", "descan", "positions", "iter_losses"))
+        ctx.check(same, "original_changed_by_twin", lambda: "continuing %s changed %s (num_iters %d -> %d, obj %.2e, probe %.2e, descan %.2e, positions %.2e)" % (
+            during, who, snap0["num_iters"], s1["num_iters"], _relmax(snap0["obj"], s1["obj"]), _relmax(snap0["probe"], s1["probe"]), _relmax(snap0["descan"], s1["descan"]), _relmax(snap0["positions"], s1["positions"])),
+            **dict(f0, twin=who, phase="continuation"))
+
+    def continue_original():
+        cont_run(A)
+        return _compare(ctx, ref_final, _snap(A), tol, dict(f0, twin="original_after_save", phase="continuation"), judge_dataset_params=ds_active, **ckw)
+
+    if order == "original_first":
+        worst = max(worst, continue_original())
+    a_before = _snap(A)
     for name, B in twins.items():
         noraw = name.startswith("noraw")
         if noraw and dataset:
             ctx.count("noraw_continuation_not_judged_dataset_optimizer")
             continue
         cont_run(B)
-        worst = max(worst, _compare(ctx, ref_final, _snap(B), tol, dict(f0, twin=name, phase="continuation"), judge_dataset_constraints=not noraw, **ckw))
-    sA = _snap(A)
-    ctx.check(_relmax(split["obj"], sA["obj"]) == 0.0 and _relmax(split["probe"], sA["probe"]) == 0.0 and sA["num_iters"] == split["num_iters"], "original_changed_by_twin",
-              "continuing the reloaded / cloned objects changed the original (num_iters %d -> %d, obj diff %.2e)" % (split["num_iters"], sA["num_iters"], _relmax(split["obj"], sA["obj"])), **dict(f0, twin="original", phase="continuation"))
-    cont_run(A)
-    worst = max(worst, _compare(ctx, ref_final, _snap(A), tol, dict(f0, twin="original_after_save", phase="continuation"), **ckw))
+        worst = max(worst, _compare(ctx, ref_final, _snap(B), tol, dict(f0, twin=name, phase="continuation"), judge_dataset_constraints=not noraw, judge_dataset_params=ds_active and not noraw, **ckw))
+    frozen(a_before, A, "original", "the reloaded / cloned objects")
+    if order != "original_first":
+        worst = max(worst, continue_original())
+    _judge_no_sharing(ctx, everyone, f0, "after_continuation")
     for p in (pz, pn):
         with _suppress():
             os.remove(p)
@@ -492,8 +596,8 @@ def _run_twins(spec, idx, ctx):
     stateful = spec["opt"] != "sgd"
     finite = bool(np.isfinite(ref_final["iter_losses"]).all())
     ctx.count("cases_nonfinite_history", int(not finite))
-    ctx.nontrivial((spec["opt"], spec["sched"], k, style, dataset), k >= 1 and m >= 2 and (stateful or lr_changed) and finite)
-    ctx.observe(scene=sc.describe(), k=k, m=m, style=style, sync=sync, optimizer=op, scheduler=sp, constraints=cons, loss=loss_type, dataset_optimizer=dataset, snapshots=snaps, twins=sorted(twins),
+    ctx.nontrivial((spec["opt"], spec["sched"], k, style, dataset, errors != "none"), k >= 1 and m >= 2 and (stateful or lr_changed) and finite)
+    ctx.observe(scene=sc.describe(), k=k, m=m, style=style, sync=sync, order=order, failed_saves=errors, iterations_between_failed_save_and_checkpoint=k_b, learn_descan=learn_descan, learn_scan_positions=learn_pos, optimizer=op, scheduler=sp, constraints=cons, loss=loss_type, dataset_optimizer=dataset, snapshots=snaps, twins=sorted(twins),
                 iter_losses=ref_final["iter_losses"].tolist(), iter_lrs_object=lrs.tolist(), lr_changed=lr_changed, worst_continuation_residual=worst)
 
 
@@ -552,7 +656,7 @@ def _run_history(spec, idx, ctx):
     for j in range(3):
         As = _snap(A)
         splits.append(As["num_iters"])
-        _compare(ctx, Rs[j], As, TOL_SYNC, dict(f0, twin="original_after_save", phase="state", split=j))
+        _compare(ctx, Rs[j], As, TOL_SYNC, dict(f0, twin="original_after_save", phase="state", split=j), judge_dataset_params=dataset)
         with quiet():
             A.save(pz, mode="o", store="zip", save_raw_data=True)
             A.save(pd, mode="o", store="dir", save_raw_data=True)
@@ -561,16 +665,18 @@ def _run_history(spec, idx, ctx):
             twins["clone_of_reloaded_" + src.split("_")[0]] = Pty.from_file(pz if src.startswith("zip") else pd).clone()
         ctx.count("history_overwrites", 2 if j else 0)
         for name, B in twins.items():
-            _compare(ctx, As, _snap(B), TOL_STATE, dict(f0, twin=name, phase="state", split=j))
+            _compare(ctx, As, _snap(B), TOL_STATE, dict(f0, twin=name, phase="state", split=j), judge_dataset_params=dataset)
+        _judge_no_sharing(ctx, dict(twins, original=A), dict(f0, split=j), "after_checkpoint")
         for name, B in twins.items():
             stage(B, j + 1)
-            worst = max(worst, _compare(ctx, Rs[j + 1], _snap(B), TOL_SYNC, dict(f0, twin=name, phase="continuation", split=j)))
+            worst = max(worst, _compare(ctx, Rs[j + 1], _snap(B), TOL_SYNC, dict(f0, twin=name, phase="continuation", split=j), judge_dataset_params=dataset))
+        _judge_no_sharing(ctx, dict(twins, original=A), dict(f0, split=j), "after_continuation")
         sA = _snap(A)
         ctx.check(_relmax(As["obj"], sA["obj"]) == 0.0 and _relmax(As["probe"], sA["probe"]) == 0.0 and sA["num_iters"] == As["num_iters"], "original_changed_by_twin",
                   "continuing the reloaded / cloned objects changed the original", **dict(f0, twin="original", phase="continuation", split=j))
         del twins
         stage(A, j + 1)
-    worst = max(worst, _compare(ctx, Rs[3], _snap(A), TOL_SYNC, dict(f0, twin="original_after_save", phase="continuation", split=3)))
+    worst = max(worst, _compare(ctx, Rs[3], _snap(A), TOL_SYNC, dict(f0, twin="original_after_save", phase="continuation", split=3), judge_dataset_params=dataset))
     lrs = Rs[3]["iter_lrs"].get("object", np.zeros(0))
     lr_changed = bool(len(lrs) > 1 and np.ptp(lrs[lrs > 0]) > 0) if len(lrs) and (lrs > 0).any() else False
     finite = bool(np.isfinite(Rs[3]["iter_losses"]).all())
@@ -598,6 +704,7 @@ def summarize(all_cases, counters, extras):
     return {
         "fallback_clone_forced": int(counters.get("fallback_forced", 0)),
         "history_cases": int(counters.get("history_cases", 0)),
+        "failed_saves_caught": int(counters.get("failed_saves_caught", 0)),
         "checkpoint_overwrites_followed_by_reload": int(counters.get("history_overwrites", 0)),
         "saves": int(counters.get("hook:Ptychography.save", 0)),
         "loads": int(counters.get("hook:Ptychography.from_file", 0)),
